@@ -164,19 +164,67 @@ def run_cvc5(smt2, timeout_s):
     return res
 
 
+def _child(job, conn):
+    try:
+        conn.send(_solve_one(job))
+    except Exception as e:  # pragma: no cover
+        conn.send({"name": job[0], "backend": "z3", "result": "error", "time_s": 0.0, "model": None,
+                   "reason": f"{type(e).__name__}: {e}"})
+    finally:
+        conn.close()
+
+
 def solve_all(obls, timeout_s=30, procs=None, use_cvc5=True):
-    jobs = []
+    """One forked process per obligation (the z3 terms are inherited through fork, no SMT2 round trip), at most
+    `procs` at a time, each under a HARD wall-clock limit: z3 does not always honour its own timeout inside
+    quantifier instantiation, and an obligation that cannot be decided in time is `unknown`, never a verdict."""
     global _OBLS
     _OBLS = list(obls)
+    jobs = []
     for i, o in enumerate(obls):
         has_bytes = any(z3.is_seq(t) and not z3.is_string(t) and t.sort() == z3.SeqSort(z3.IntSort()) for t in o.inputs.values())
         jobs.append((o.name, (i, False), set(str(k) for k in o.inputs), timeout_s, use_cvc5,
                      (i, True) if has_bytes else None))
-    procs = procs or min(16, max(1, len(jobs)))
     if not jobs:
         return []
-    if procs == 1 or len(jobs) == 1:
-        return [_solve_one(j) for j in jobs]
+    procs = procs or 16
+    hard = timeout_s * 3 + 30
     ctx = mp.get_context("fork")
-    with ctx.Pool(procs) as pool:
-        return pool.map(_solve_one, jobs, chunksize=1)
+    results = [None] * len(jobs)
+    running = {}      # index -> (process, conn, start)
+    nxt = 0
+    while nxt < len(jobs) or running:
+        while nxt < len(jobs) and len(running) < procs:
+            pr, pc = ctx.Pipe(duplex=False)
+            p = ctx.Process(target=_child, args=(jobs[nxt], pc))
+            p.start()
+            pc.close()
+            running[nxt] = (p, pr, time.time())
+            nxt += 1
+        done = []
+        for i, (p, conn, t0) in running.items():
+            if conn.poll(0):
+                try:
+                    results[i] = conn.recv()
+                except EOFError:
+                    results[i] = {"name": jobs[i][0], "backend": "z3", "result": "unknown", "time_s": round(time.time() - t0, 3),
+                                  "model": None, "reason": "solver process died"}
+                p.join(1)
+                done.append(i)
+            elif not p.is_alive():
+                results[i] = {"name": jobs[i][0], "backend": "z3", "result": "unknown", "time_s": round(time.time() - t0, 3),
+                              "model": None, "reason": "solver process exited without a result"}
+                done.append(i)
+            elif time.time() - t0 > hard:
+                p.kill()
+                p.join(1)
+                results[i] = {"name": jobs[i][0], "backend": "z3 " + z3.get_version_string(), "result": "unknown",
+                              "time_s": round(time.time() - t0, 3), "model": None,
+                              "reason": f"hard wall-clock limit of {hard}s reached (solver ignored its timeout)"}
+                done.append(i)
+        for i in done:
+            running[i][1].close()
+            del running[i]
+        if not done:
+            time.sleep(0.01)
+    return results
